@@ -289,7 +289,12 @@ func run(c *lib.Ctx) {
 						// TLS state present: name from the TLS state, Host header ignored.
 						idx++
 						if c.Mine(idx) {
-							e.check(caseC{Proto: string(p), Host: h, Strict: strict, CliName: cn, Path: pa, HTTPTLS: true, HostHdr: "ignored.example:443"})
+							// The header names a ClientID that must not be used.
+							hdr := "hdrid.dns.example:443"
+							if h != "" {
+								hdr = "hdrid." + h + ":443"
+							}
+							e.check(caseC{Proto: string(p), Host: h, Strict: strict, CliName: cn, Path: pa, HTTPTLS: true, HostHdr: hdr})
 						}
 						// No TLS state: name from the Host header, with and without port.
 						for _, port := range []string{"", ":443"} {
